@@ -255,6 +255,68 @@ func (p *Prog) canonicalise(path string) {
 			}
 		}
 	}
+	// ---- second pass: the receiver moved (method of A taking B -> method of B taking A, method <-> function)
+	// or the parameters were reordered together with a rename: the same package, the same multiset of
+	// parameter types (receiver included) and the same results, unique both ways
+	{
+		pkgOf := func(n string) string {
+			o := ownerOf(n)
+			o = strings.TrimPrefix(strings.TrimPrefix(o, "("), "*")
+			o = strings.TrimSuffix(o, ")")
+			if strings.HasPrefix(n, "(") {
+				if i := strings.LastIndex(o, "."); i >= 0 {
+					return o[:i]
+				}
+			}
+			return o
+		}
+		results := func(sig string) string {
+			d := 0
+			for i := 0; i < len(sig); i++ {
+				switch sig[i] {
+				case '(':
+					d++
+				case ')':
+					d--
+					if d == 0 {
+						return strings.TrimSpace(sig[i+1:])
+					}
+				}
+			}
+			return ""
+		}
+		key := func(n string, ps [][2]string, sig string) string {
+			var ts []string
+			for _, p := range ps {
+				ts = append(ts, p[1])
+			}
+			sort.Strings(ts)
+			return pkgOf(n) + "|" + strings.Join(ts, ",") + "|" + results(sig)
+		}
+		mk, fk := map[string][]string{}, map[string][]string{}
+		for _, m := range missing {
+			if canonByRef[m] == nil && len(ref.Params[m]) > 0 {
+				k := key(m, ref.Params[m], ref.Funcs[m])
+				mk[k] = append(mk[k], m)
+			}
+		}
+		for _, n := range fresh {
+			if f := curFns[n]; f != nil && len(cur.Params[n]) > 0 {
+				if _, taken := canonFn[f]; !taken {
+					k := key(n, cur.Params[n], cur.Funcs[n])
+					fk[k] = append(fk[k], n)
+				}
+			}
+		}
+		for k, ms := range mk {
+			if len(ms) == 1 && len(fk[k]) == 1 {
+				f := curFns[fk[k][0]]
+				canonFn[f] = ms[0]
+				canonByRef[ms[0]] = f
+				canonNotes = append(canonNotes, fmt.Sprintf("anchor %s is taken to be %s (only new function of the package with the same parameter types, receiver included, and results)", ms[0], fk[k][0]))
+			}
+		}
+	}
 	// ---- fields: a struct whose field types are unchanged in order pairs renamed fields by position;
 	// otherwise a missing field is the only new field of the struct with the identical type
 	for sname, rfs := range ref.Structs {
